@@ -128,6 +128,10 @@ impl Acc {
     }
 }
 
+/// Pixel counts of the single large images every batch check also converts: just above 2^16 and
+/// 2^18 and not multiples of 2, 3 or 4 (size thresholds for LUTs, banding, threading and their remainders).
+pub const BIG_SIZES: [usize; 2] = [65_539, 262_147];
+
 static LIGHT: std::sync::atomic::AtomicBool = std::sync::atomic::AtomicBool::new(false);
 /// "matrix tier": reduced alphabets used when the same checks run once per build configuration (C20 quick).
 pub fn set_light(b: bool) {
